@@ -231,7 +231,7 @@ type Exp struct {
 }
 
 type Stmt struct {
-	Kind   string // Let Assign Swap Exp If Return Emit
+	Kind   string // Let Assign Swap Exp If Return Emit Let2 Remove
 	Ln     int
 	X      int
 	Ty     *Ty
@@ -310,6 +310,8 @@ func (e *Exp) Coq() string {
 		return "(EAttach " + e.A.Coq() + ")"
 	case "Destroy":
 		return "(EDestroy " + e.A.Coq() + ")"
+	case "Nil":
+		return "ENilV"
 	}
 	panic("exp " + e.Kind)
 }
@@ -353,6 +355,10 @@ func (s *Stmt) Coq() string {
 		return fmt.Sprintf("(SReturn %d %s)", s.Ln, s.E.Coq())
 	case "Emit":
 		return fmt.Sprintf("(SEmit %d %s)", s.Ln, s.E.Coq())
+	case "Let2":
+		return fmt.Sprintf("(SLet2 %d %d %s %s %s)", s.Ln, s.X, s.Ty.Coq(), s.T.Coq(), s.E.Coq())
+	case "Remove":
+		return fmt.Sprintf("(SRemove %d %s)", s.Ln, s.T.Coq())
 	}
 	panic("stmt " + s.Kind)
 }
@@ -563,6 +569,8 @@ func (sc *scope) exp(e *Exp) string {
 		return "attach A() to " + sc.mv(e.A)
 	case "Destroy":
 		return "destroy " + sc.exp(e.A)
+	case "Nil":
+		return "nil"
 	}
 	panic("exp " + e.Kind)
 }
@@ -629,8 +637,18 @@ func (sc *scope) stmt(s *Stmt, ind string) string {
 		op := "="
 		if t := sc.tyOf(s.T); t != nil && t.IsRes() {
 			op = "<-"
+			if t.K == "Opt" {
+				// force-assignment into an optional resource slot (must be nil)
+				op = "<-!"
+			}
 		}
 		return put(fmt.Sprintf("%s%s %s %s", ind, sc.target(s.T), op, sc.exp(s.E)))
+	case "Let2":
+		line := fmt.Sprintf("%svar %s: %s <- %s <- %s", ind, varName(s.X), s.Ty.Cadence(), sc.target(s.T), sc.exp(s.E))
+		sc.vars[s.X] = s.Ty
+		return put(line)
+	case "Remove":
+		return put(fmt.Sprintf("%sremove A from %s", ind, sc.target(s.T)))
 	case "Swap":
 		return put(fmt.Sprintf("%s%s <-> %s", ind, sc.target(s.T), sc.target(s.T2)))
 	case "Exp":
